@@ -119,6 +119,57 @@ Theorem C20_failure_without_matching_ack :
   forall seq h, ~ In (EAck seq) h -> fst (ack_wait seq [] h) = false.
 Proof. exact failure_without_matching_ack. Qed.
 
+(** The receiving MAC over time. For EVERY history of frames and PIB updates on the peer — MLME-SET,
+    direct database writes, set_short_address / set_extended_address, MLME-START, MLME-ASSOCIATE
+    (successful or failed), MLME-RESET; PAN id, short and extended address, promiscuous and
+    implicit-broadcast flags — and every position in it: the frame of a valid data request
+    arriving there is indicated, with the payload and addressing of the request, exactly when the
+    peer is promiscuous or addressed according to its PIB AS IT IS AT THAT TIME (not as it was when
+    earlier frames were received); otherwise nothing. (Induction over the history.) *)
+Theorem C20_history_indicated_iff_addressed :
+  forall (p0 : pib) (pre post : list rop) (a : pib) (r : request) (seq : N) (wait : bool),
+    valid_request a r = true -> seq < 256 -> q_dam r <> MACAddressMode_NONE ->
+    exists fr,
+      data_request a seq wait r = (Ok fr, (seq + 1) mod 256)
+      /\ nth (frames_in pre) (rrun p0 (pre ++ RFrame fr :: post)) RxNothing
+         = let cur := pib_after p0 pre in
+           if macPromiscuousMode cur
+              || addressed cur (d_dpan (data_packet a r)) (d_daddr (data_packet a r))
+           then RxIndication (expected_indication a r) else RxNothing.
+Proof. exact history_indicated_iff_addressed. Qed.
+
+(** any frame (also malformed ones) at any position: judged with the current PIB only *)
+Theorem C20_history_frame_uses_current_pib :
+  forall (p : pib) (pre : list rop) (b : bytes) (post : list rop),
+    nth (frames_in pre) (rrun p (pre ++ RFrame b :: post)) RxNothing = receive (pib_after p pre) b.
+Proof. exact history_frame_at. Qed.
+
+(** what each way of writing the PIB leaves in it *)
+Theorem C20_update_effects :
+  forall (p : pib) (a : attr) (v pan short : N),
+    apply_update p (UStart pan) = set_attr p APanId pan
+    /\ macPanId (apply_update p (UStart pan)) = pan
+    /\ macPanId (apply_update p (UAssocOk pan short)) = pan
+    /\ macShortAddress (apply_update p (UAssocOk pan short)) = short
+    /\ macPanId (apply_update p (UAssocFail pan)) = 65535
+    /\ macPanId (apply_update p (USet APanId v)) = v
+    /\ macShortAddress (apply_update p (USet AShort v)) = v
+    /\ macExtendedAddress (apply_update p (USet AExt v)) = v
+    /\ macPromiscuousMode (apply_update p (USet APromisc v)) = negb (v =? 0)
+    /\ apply_update p UReset = pib_default
+    /\ (a <> APanId -> macPanId (apply_update p (USet a v)) = macPanId p).
+Proof. exact update_effects. Qed.
+
+Example C20_nonvacuous_history :
+  fst (hrun wit_a 0 hist_b [HSend (hist_req 4369); HUpd (UStart 8738); HSend (hist_req 8738); HSend (hist_req 4369);
+                            HUpd (UAssocFail 13107); HSend (hist_req 65535); HSend (hist_req 8738)])
+  = Some [([[1; 136; 0; 17; 17; 2; 0; 52; 18; 1; 0; 1; 2]], [([1; 2], Some 4369, Some 2, Some 4660, Some 1)]);
+          ([[1; 136; 1; 34; 34; 2; 0; 52; 18; 1; 0; 1; 2]], [([1; 2], Some 8738, Some 2, Some 4660, Some 1)]);
+          ([[1; 136; 2; 17; 17; 2; 0; 52; 18; 1; 0; 1; 2]], []);
+          ([[1; 136; 3; 255; 255; 2; 0; 52; 18; 1; 0; 1; 2]], [([1; 2], Some 65535, Some 2, Some 4660, Some 1)]);
+          ([[1; 136; 4; 34; 34; 2; 0; 52; 18; 1; 0; 1; 2]], [])].
+Proof. exact nonvacuous_history. Qed.
+
 (** The code before the repair (no drain of the queue) — kept as the reason for the repair. *)
 Theorem C20_ack_without_drain_refuted :
   exists st h, seqnum st < 256 /\ ~ fresh_ack (seqnum st) h
